@@ -242,6 +242,13 @@ def run(check, repo: Repo) -> None:
     check.decide(ok, "C02-R7", "overlap_projection: transmit through slice 0, then propagate by gap s−1 and transmit through slice s for s = 1…S−1", "", bmod.line(op),
                  fail_detail="the multislice recursion is not T_s · P_{s−1}(…)")
 
+    # ---- R9 / R10 borrowed rule instances: the propagator kernel (C16) and the mixed-state orthogonalisation applied by the probe getter (C10) ----
+    from ..core.report import SubCheck
+    from .c10 import gram_schmidt_rules
+    from .c16 import propagator_rules
+    propagator_rules(SubCheck(check, "C02-R9"), repo)
+    gram_schmidt_rules(SubCheck(check, "C02-R10"), repo)
+
 
 MANIFEST = {
     "text": "Narrow claim — the numerical statement (zero loss at an independently simulated ground truth) is runtime. Decided: the "
